@@ -23,6 +23,7 @@ def run(ctx: Ctx) -> list[Ob]:
     obs += r3.r3j(ctx)
     obs += r12b.pattern_entry_subclasses(ctx)
     obs += r11.r11k(ctx)
+    obs += r11.r11l(ctx)
     return obs
 
 
@@ -44,6 +45,7 @@ SPEC = PropSpec(
         " R5d (exponent ramp, by abstract interpretation with integer-ramp values and slice origins): in TorchPolynomialDifferential.forward, for order 1 and 2 (3 in the thorough tier), every product of a slice of the coefficient axis with an integer ramp pairs the coefficient of x^n with the multiplier n (slice origin == first value of the ramp), one such step per order -- a hoisted arange sliced by the loop counter multiplies the later steps by shifted numbers of the right shape."
         " R5f: TorchScaledSigmoidParameter.forward, evaluated as a polynomial in vmin, vmax and S = sigmoid(x), is affine in S with value vmin at S = 0 and vmax at S = 1. R3i: in every config / fold_settings / params of a torch-side module an optional hyper-parameter is included under a None-test, never under a bare truthiness test (a bound of exactly 0.0 would be dropped when the folder / optimiser rebuilds the module from its config). R3j: every value a torch-side config returns is hashable (no list display / list(..) / Tensor.tolist(), directly or through a property): the folder uses (type, *fold_settings) with fold_settings = config.items() as a dictionary key. R12c: no strict subclass of a class named by an optimisation pattern's entries() redefines an evaluation method -- the matchers test isinstance, so such a subclass is rewritten by an identity that holds for its parent only."
         " R11k: any hand-written exp(x - max(x)) in a torch-side forward makes the shift finite first (an all -inf row is log 0, not nan), as the semiring reductions do."
+        ' R11l: no log-likelihood multiplies an input-derived factor (a count x, n - x) by the unclamped logarithm of a parameter-derived probability: at the in-support point where the factor is 0 and the probability has rounded to 0 / 1 (a saturated sigmoid) that is 0 * -inf = nan; torch.xlogy / xlog1py or a clamp (as torch.distributions does) is required.'
     ),
     not_decided="the mathematical content of each operator (numerical).",
     run=run,
